@@ -68,6 +68,13 @@ func Walk(ctx context.Context, fileSystem fs.FS, prefix, delimiter, marker strin
 		}
 	}
 
+	// keys have neither a leading nor an empty nor a dot path element: a
+	// prefix whose directory part has one matches nothing (and is not a
+	// path the walk can start at)
+	if !fs.ValidPath(root) {
+		return WalkResults{}, nil
+	}
+
 	// a prefix that points into a skipped directory starts the walk below
 	// it, where the name check of the walk never sees it: nothing matches
 	if root != "." && contains(strings.Split(root, "/")[0], skipdirs) {
